@@ -789,6 +789,13 @@ class ComponentRefFlattener(TreeListener):
         if self.depth > self.cutoff_depth:
             return
 
+        # A reference that was already flattened in a nested instance holds the
+        # full flat name. Prefixing it again would make it point to a different
+        # variable when instance names repeat (a.b.p -> a.a.b.p).
+        if getattr(tree, "_flattened", False):
+            self.cutoff_depth = self.depth
+            return
+
         # Compose flatted name
         new_name = self.instance_prefix + tree.name
         c = tree
@@ -810,6 +817,7 @@ class ComponentRefFlattener(TreeListener):
                 c = c.child[0]
                 tree.indices += c.indices
             tree.child = []
+            tree._flattened = True
         else:
             # The component was not found in the container.  We leave this
             # reference alone.
